@@ -1,5 +1,5 @@
 ENGINES = [
-    {"name": "pyscan", "path": "vt/", "serves_properties": ["C01", "C02", "C04", "C07", "C12", "C10", "C11", "C13", "C19", "C20"],
+    {"name": "pyscan", "path": "vt/", "serves_properties": ["C01", "C02", "C04", "C05", "C07", "C12", "C10", "C11", "C13", "C19", "C20"],
      "kind_free_text": "runtime monitoring of the real Python scanner modules imported from /repo's working tree: recorded events judged by independent reference models, icontract invariants on live objects"},
 ]
 NOTES = "All checks: ./check <id> --tier quick|thorough [--seed N]; VERIF_SEED/VERIF_TIER honoured. Exit 0 held / 1 VIOLATION / 2 INCONCLUSIVE. See DESIGN.md."
@@ -48,3 +48,7 @@ add('C12', 'pyscan', 'runtime monitoring: generated GObject-style libraries (dec
 add('C04', 'pyscan', 'runtime monitoring: generated declaration sets under generated prefix configurations through the real scanner passes; multiset of c:identifier/c:type, nesting and names judged by an expected-public-set model with only-if conditions for methods/constructors',
     'held on the executions produced: every expected public name exactly once (moved-to copies aside), nothing foreign/hidden/undeclared, GIR names = C name minus namespace prefix minus owner prefix, methods only with matching first parameter and prefix, constructors only with prefix and return type; 8 prefix configurations incl. nested and included-namespace prefixes and accept-unprefixed',
     'trusted: judge model; underscore-named *types* not judged (statement speaks of symbols); CLI option handling not driven', 'DESIGN.md 4 C04')
+
+add('C05', 'pyscan', 'runtime monitoring: structural closure rules (vt/girclosure.py) evaluated over every GIR the real pipeline emits for exotic and regular generated libraries, and over the repository\'s 24 GIR files, with the include closure loaded',
+    'held on the executions produced: no introspectable callable/field/property/alias used an unresolved, non-introspectable, variadic, va_list, long long or long double type, lacked a transfer or a callback scope; every closure/destroy/length index in range; shadows, type-struct, accessor and invoker references mutual; thousands of demotions observed (the rules had something to decide); one data defect fixed (freetype2-2.0.gir)',
+    'trusted: girclosure rules; GLib/GObject/Gio are stubs (references into them only checked for include-closure membership); skipped values not judged', 'DESIGN.md 4 C05')
